@@ -3,6 +3,9 @@ package main
 import (
 	"bufio"
 	"bytes"
+	"go/printer"
+	"go/token"
+	"io"
 
 	"google.golang.org/protobuf/encoding/prototext"
 	"google.golang.org/protobuf/proto"
@@ -16,3 +19,8 @@ func prototextS(m proto.Message) string {
 }
 
 func bufioReader(b []byte) *bufio.Reader { return bufio.NewReader(bytes.NewReader(b)) }
+
+func printerFprint(w io.Writer, fset *token.FileSet, n interface{}) { printer.Fprint(w, fset, n) } //nolint
+
+func protoreflectBytes(b []byte) protoreflect.Value  { return protoreflect.ValueOfBytes(b) }
+func protoreflectString(s string) protoreflect.Value { return protoreflect.ValueOfString(s) }
